@@ -97,6 +97,12 @@ func main() {
 				w.cleanup()
 			})
 			fmt.Println("gentest done, bad =", bad)
+		case "genfeat":
+			// vf genfeat <seed> <dir> feature...: write a composed program with exactly these features.
+			sd, _ := strconv.ParseInt(os.Args[2], 10, 64)
+			p := generate(subRand(sd, "genfeat"), GenOpts{Features: os.Args[4:]})
+			writeTree(os.Args[3], p.Files)
+			fmt.Println(p.Features)
 		case "gencf":
 			// vf gencf <seed> <dir> [kind...]: write a control-flow program for manual experiments.
 			sd, _ := strconv.ParseInt(os.Args[2], 10, 64)
